@@ -150,7 +150,17 @@ pub fn exercise(text: &str, source: &str, globals: &BTreeMap<String, CVal>) -> R
         let (r, _) = run(&file, &tree, &index, source, globals, &ExecOpts { lazy, debug: None });
         match r {
             LibRun::Panic(p) => return Err(Failure::new(format!("C05:{}:{}", mode, p.signature()), format!("{} execution panicked: {}", mode, p.message), d(json!({})))),
-            LibRun::PollBound(n) => return Err(Failure::new(format!("C05:{}:poll-bound", mode), format!("{} execution polled the cancellation flag {} times without finishing (no longer advancing)", mode, n), d(json!({})))),
+            LibRun::PollBound(_) => {
+                // slow or endless?  decide with a bound 15 times higher, one such run at a time
+                static CONFIRM: std::sync::Mutex<()> = std::sync::Mutex::new(());
+                let _guard = CONFIRM.lock().unwrap_or_else(|e| e.into_inner());
+                let (again, polls) = run_capped(&file, &tree, &index, source, globals, &ExecOpts { lazy, debug: None }, 30_000_000);
+                match again {
+                    LibRun::PollBound(n) => return Err(Failure::new(format!("C05:{}:poll-bound", mode), format!("{} execution polled the cancellation flag {} times without finishing (no longer advancing)", mode, n), d(json!({})))),
+                    LibRun::Panic(p) => return Err(Failure::new(format!("C05:{}:{}", mode, p.signature()), format!("{} execution panicked: {}", mode, p.message), d(json!({})))),
+                    _ => labels.push(format!("{}:slow-but-finite({}-polls)", mode, if polls > 10_000_000 { ">10M" } else { "2M-10M" })),
+                }
+            }
             LibRun::BadGraph(w) => return Err(Failure::new(format!("C05:{}:bad-graph", mode), w, d(json!({})))),
             LibRun::Ok(_) => labels.push(format!("{}:ok", mode)),
             LibRun::Err(e) => {
@@ -197,6 +207,11 @@ pub const RECURSIVE_SHORTHANDS: &[&str] = &[
 ];
 
 pub fn case(tape: &[u32]) -> CaseOutcome {
+    if tape.len() >= 2 && tape[0] == 0xFFFF_FF05 {
+        // a libFuzzer artifact stored as bytes
+        let bytes: Vec<u8> = tape[2..].iter().map(|w| *w as u8).collect();
+        return artifact_case(&bytes);
+    }
     let (aux, main) = split_tape(tape);
     let mut t = Tape::new(&aux);
     let mut gt = Tape::new(&main);
@@ -283,9 +298,57 @@ pub fn spec(tier: &str) -> Spec {
     s
 }
 
+/// A libFuzzer artifact of `c05_load_exec`, re-executed in-process.
+fn artifact_case(bytes: &Vec<u8>) -> CaseOutcome {
+    let text = match std::str::from_utf8(bytes) {
+        Ok(t) => t,
+        Err(_) => return CaseOutcome::Discard("artifact is not UTF-8"),
+    };
+    for source in ["pass\n", "a.b(c)\nprint d, é\n", "x = (\n", "def f(a):\n    return a\n"] {
+        if let Err(f) = exercise(text, source, &BTreeMap::new()) {
+            return CaseOutcome::Fail(f);
+        }
+    }
+    CaseOutcome::Pass(CaseReport { fingerprint: fingerprint(&text), nontrivial: false, labels: vec!["libfuzzer-artifact-not-reproduced".into()], counters: vec![], sample: None, evaluations: 1 })
+}
+
+fn tape_of_bytes(bytes: &[u8]) -> Vec<u32> {
+    bytes
+        .chunks(4)
+        .map(|c| {
+            let mut b = [0u8; 4];
+            b[..c.len()].copy_from_slice(c);
+            u32::from_le_bytes(b)
+        })
+        .collect()
+}
+
+/// Inputs of known findings, run on every invocation (a libFuzzer-artifact style tape).
+const PINNED: &[&str] = &["import_statement:_) name @name)\n{\n  node @name.source\n}\n", "nosuchnode) @x { print @x }\n"];
+
 pub fn run_check(tier: &str) -> i32 {
     let started = std::time::Instant::now();
-    let spec = spec(tier);
-    let result = run_tapes(&spec, case);
+    let mut spec = spec(tier);
+    let pinned: Vec<Vec<u8>> = PINNED.iter().map(|s| s.as_bytes().to_vec()).collect();
+    let r0 = run_fixed(&spec, &pinned, artifact_case, |b| vec![0xFFFF_FF05, 0].into_iter().chain(b.iter().map(|x| *x as u32)).collect());
+    let mut result = merge_results(r0, run_tapes(&spec, case));
+    if tier == "thorough" && result.violations.is_empty() {
+        // Driver B: libFuzzer on raw text and on tapes, 8 processes each
+        let seeds: Vec<Vec<u8>> = TSG_CORPUS.iter().map(|s| s.as_bytes().to_vec()).chain(RECURSIVE_SHORTHANDS.iter().map(|s| s.as_bytes().to_vec())).collect();
+        for (target, runs) in [("c05_load_exec", 40_000u64), ("c05_tape", 25_000u64)] {
+            match crate::fuzzrun::run(target, runs, 8, spec.seed, if target == "c05_tape" { &[] } else { &seeds }, 4096) {
+                Err(e) => harness_error(format!("libFuzzer {}: {}", target, e)),
+                Ok(fr) => {
+                    result.accum.evaluations += fr.executions;
+                    *result.accum.counters.entry(format!("libfuzzer:{}:executions", target)).or_default() += fr.executions;
+                    *result.accum.counters.entry(format!("libfuzzer:{}:corpus-files", target)).or_default() += fr.corpus_files as u64;
+                    let arts: Vec<Vec<u8>> = fr.artifacts.iter().filter_map(|p| std::fs::read(p).ok()).collect();
+                    let r = if target == "c05_tape" { run_fixed(&spec, &arts, |b| case(&tape_of_bytes(b)), |b| tape_of_bytes(b)) } else { run_fixed(&spec, &arts, artifact_case, |b| vec![0xFFFF_FF05, 0].into_iter().chain(b.iter().map(|x| *x as u32)).collect()) };
+                    result = merge_results(result, r);
+                }
+            }
+        }
+        spec.rule.push_str(" Thorough tier: additionally libFuzzer (cargo-fuzz targets c05_load_exec on raw text with a dictionary and the example files as seed corpus, c05_tape on choice tapes; 8 processes each, half of them from an empty corpus; executions are counted in `counters`).");
+    }
     finish(&spec, result, started)
 }
